@@ -59,11 +59,47 @@ def shape_width(sh):
         return sum(w for _n, w, _s in sh[1])
     if k == "array":
         return sh[1] * sh[2]
+    if k == "dstruct":
+        return sum(w for _n, w, _s, _d in sh[1])
+    if k == "dunion":
+        return max(w for _n, w, _s, _d in sh[1])
+    if k == "custom":
+        return sh[1]
     raise ValueError(sh)
 
 
 def shape_signed(sh):
-    return sh[0] == "s"
+    return sh[0] == "s" or (sh[0] == "custom" and sh[2])
+
+
+def shape_castable(sh):
+    """is the row shape a ShapeCastable object (rows missing from `init` then hold `shape.const(None)`)"""
+    return sh[0] not in ("u", "s")
+
+
+def shape_default(sh):
+    """The bit pattern (unsigned) of a row that `init` does not mention, from the abstract description alone:
+    0 for plain shapes and for layouts (a layout has no field defaults); for a `data.Struct` class every field's
+    default (two's complement, field width) at the field's offset = sum of the widths of the fields declared
+    before it; for a `data.Union` class the one default at offset 0; for the custom shape-castable its declared
+    default. amaranth is not consulted."""
+    k = sh[0]
+    if k == "dstruct":
+        v, off = 0, 0
+        for _n, w, _s, d in sh[1]:
+            if d is not None:
+                v |= (d & ((1 << w) - 1)) << off
+            off += w
+        return v
+    if k == "dunion":
+        v = 0
+        for _n, w, _s, d in sh[1]:
+            if d is not None:
+                v |= d & ((1 << w) - 1)
+        return v
+    if k == "custom":
+        return sh[3] & ((1 << sh[1]) - 1)
+    return 0
 
 
 def kind_sexp(sh):
@@ -91,9 +127,18 @@ def norm_row(v, width, signed):
 
 
 def full_init(cfg):
+    """the declared initial contents, one integer per row: the entries of `init` (an explicit `None` is the row
+    shape's default), then the default for every row `init` does not reach"""
     w, s = shape_width(cfg["shape"]), shape_signed(cfg["shape"])
-    rows = [norm_row(v, w, s) for v in cfg["init"]]
-    return rows + [0] * (cfg["depth"] - len(rows))
+    dflt = shape_default(cfg["shape"])
+    rows = [norm_row(dflt if v is None else v, w, s) for v in cfg["init"]]
+    return rows + [norm_row(dflt, w, s)] * (cfg["depth"] - len(rows))
+
+
+def rd_init(cfg):
+    """initial value of every read port's `data`: a `Signal(shape)`, which starts with the shape's default"""
+    w, s = shape_width(cfg["shape"]), shape_signed(cfg["shape"])
+    return [norm_row(shape_default(cfg["shape"]), w, s) for _ in cfg["rds"]]
 
 
 def cfg_sexp(cfg, wr_model):
@@ -103,7 +148,7 @@ def cfg_sexp(cfg, wr_model):
     rds = " ".join(f"({-1 if r['dom'] is None else r['dom']} ({' '.join(map(str, r['transp']))}))" for r in cfg["rds"])
     wrs = " ".join(f"({w['dom']} {g} {n})" for w, (g, n) in zip(cfg["wrs"], wr_model))
     return (f"(cfg {shape_width(sh)} {'s' if shape_signed(sh) else 'u'} {cfg['depth']} ({' '.join(map(str, full_init(cfg)))}) "
-            f"(doms {doms}) (rds {rds}) (wrs {wrs}) (rdinit {' '.join('0' for _ in cfg['rds'])}))")
+            f"(doms {doms}) (rds {rds}) (wrs {wrs}) (rdinit {' '.join(map(str, rd_init(cfg)))}))")
 
 
 def state_sexp(rows, rd, clk, rst):
@@ -142,7 +187,53 @@ def _mk_shape(sh):
         return data.StructLayout({n: (signed(w) if s else unsigned(w)) for n, w, s in sh[1]})
     if k == "array":
         return data.ArrayLayout(unsigned(sh[1]), sh[2])
+    if k in ("dstruct", "dunion"):
+        # a `data.Struct` / `data.Union` class written the way a user writes it: annotations with default values
+        key = repr(sh)
+        if key not in _CLASS_CACHE:
+            base = "Struct" if k == "dstruct" else "Union"
+            body = "".join(f"    {n}: {'signed' if s else 'unsigned'}({w})" + ("" if d is None else f" = {d}") + "\n"
+                           for n, w, s, d in sh[1])
+            ns = {"data": data, "signed": signed, "unsigned": unsigned}
+            exec(f"class Row(data.{base}):\n{body}", ns)
+            _CLASS_CACHE[key] = ns["Row"]
+        return _CLASS_CACHE[key]
+    if k == "custom":
+        return _custom_cls()(sh[1], sh[2], sh[3])
     raise ValueError(sh)
+
+
+_CLASS_CACHE = {}
+
+
+def _custom_cls():
+    """a user-defined shape-castable whose `const(None)` is a declared default (no layout involved)"""
+    if "custom" not in _CLASS_CACHE:
+        from amaranth.hdl import Shape, Const, Format
+        from amaranth.hdl._ast import ShapeCastable
+
+        class CustomRow(ShapeCastable):
+            def __init__(self, width, signed, default):
+                self.width, self.signed, self.default = width, signed, default
+
+            def as_shape(self):
+                return Shape(self.width, self.signed)
+
+            def const(self, init):
+                if isinstance(init, Const):
+                    init = init.value
+                return Const(self.default if init is None else init, self.as_shape())
+
+            def from_bits(self, bits):
+                return Const(bits, self.as_shape())
+
+            def __call__(self, target):
+                return target
+
+            def format(self, value, spec):
+                return Format("{}", value)
+        _CLASS_CACHE["custom"] = CustomRow
+    return _CLASS_CACHE["custom"]
 
 
 def _build(cfg):
@@ -151,7 +242,8 @@ def _build(cfg):
     from amaranth.lib.memory import Memory
     shape = _mk_shape(cfg["shape"])
     castable = isinstance(shape, ShapeCastable)
-    init = [shape.from_bits(v & ((1 << shape_width(cfg["shape"])) - 1)) for v in cfg["init"]] if castable else list(cfg["init"])
+    init = ([None if v is None else shape.from_bits(v & ((1 << shape_width(cfg["shape"])) - 1)) for v in cfg["init"]]
+            if castable else list(cfg["init"]))
     mem = Memory(shape=shape, depth=cfg["depth"], init=init)
     wrap = cfg.get("wrap")
     pname = (lambda k: "xy"[k]) if wrap == "rename" else (lambda k: DOM_NAMES[k])
@@ -352,7 +444,7 @@ def ctor_worker(job):
         if what == "mkcfg":
             # the whole constructor sequence: Memory(...), write_port(...)..., read_port(...)...
             _w, sh, depth, ninit, wrs, rds = job
-            mem = Memory(shape=_mk_shape(sh), depth=depth, init=[_mk_shape(sh).from_bits(0) if sh[0] in ("struct", "array") else 0] * ninit)
+            mem = Memory(shape=_mk_shape(sh), depth=depth, init=[_mk_shape(sh).from_bits(0) if shape_castable(sh) else 0] * ninit)
             other = Memory(shape=_mk_shape(sh), depth=depth, init=[])
             wps = [mem.write_port(domain="comb" if d < 0 else DOM_NAMES[d], granularity=g) for d, g in wrs]
             stray = {}
@@ -383,16 +475,41 @@ def divisors(n):
     return [g for g in range(1, n + 1) if n % g == 0]
 
 
+def gen_field_default(rng, w, signed):
+    lo, hi = (-(1 << (w - 1)), (1 << (w - 1)) - 1) if signed else (0, (1 << w) - 1)
+    r = rng.random()
+    return hi if r < 0.3 else (lo if r < 0.45 else rng.randint(lo, hi))
+
+
 def gen_shape(rng):
     r = rng.random()
-    if r < 0.45:
+    if r < 0.40:
         return ("u", rng.choice([0, 1, 2, 3, 4, 6, 8, 12]))
-    if r < 0.65:
+    if r < 0.57:
         return ("s", rng.choice([1, 2, 3, 4, 8]))
-    if r < 0.8:
+    if r < 0.69:
         n = rng.randint(1, 3)
         return ("struct", tuple((f"f{i}", rng.choice([1, 2, 3, 4]), rng.random() < 0.4) for i in range(n)))
-    return ("array", rng.choice([0, 1, 2, 3]), rng.choice([0, 1, 2, 4, 6]))
+    if r < 0.84:
+        return ("array", rng.choice([0, 1, 2, 3]), rng.choice([0, 1, 2, 4, 6]))
+    # shape-castables whose default constant need not be zero: rows that `init` leaves out start with it
+    if r < 0.94:
+        n = rng.randint(1, 4)
+        fields = []
+        for i in range(n):
+            w, sg = rng.choice([1, 2, 3, 4, 5]), rng.random() < 0.35
+            fields.append((f"f{i}", w, sg, gen_field_default(rng, w, sg) if rng.random() < 0.7 else None))
+        return ("dstruct", tuple(fields))
+    if r < 0.97:
+        n = rng.randint(1, 3)
+        which = rng.randrange(n + 1)            # at most one member of a union may have a default
+        fields = []
+        for i in range(n):
+            w, sg = rng.choice([1, 2, 3, 4, 6]), rng.random() < 0.35
+            fields.append((f"f{i}", w, sg, gen_field_default(rng, w, sg) if i == which else None))
+        return ("dunion", tuple(fields))
+    w, sg = rng.choice([1, 2, 3, 4, 8]), rng.random() < 0.4
+    return ("custom", w, sg, gen_field_default(rng, w, sg))
 
 
 def gran_options(sh):
@@ -426,6 +543,9 @@ def gen_cfg(rng, depth=None, max_ports=3):
     init = [rng.getrandbits(w) if w else 0 for _ in range(ninit)]
     if shape_signed(sh):
         init = [norm_row(v, w, True) for v in init]
+    if shape_castable(sh):
+        # an explicit `None` in `init` asks for the shape's default as well
+        init = [None if rng.random() < 0.15 else v for v in init]
     wrap = rng.choice([None, None, None, None, "rename", "reset", "enable"])
     if wrap == "rename" and nd > 2:
         wrap = None
@@ -688,10 +808,14 @@ def run(chk):
         "the wrappers themselves are C03's subject",
     ]
     chk.cov["rule"] = (
-        "walks: configuration = row shape (unsigned 0..12 / signed 1..8 / StructLayout / ArrayLayout incl. zero-width) x depth in "
+        "walks: configuration = row shape (unsigned 0..12 / signed 1..8 / StructLayout / ArrayLayout incl. zero-width / data.Struct and "
+        "data.Union classes with field defaults / a user-defined shape-castable with a declared default: 16 % of the memories have a "
+        "row shape whose default constant is not 0) x depth in "
         f"{list(DEPTHS)} x 1-2 domains (pos/neg edge, reset none/sync/async) x 0-3 write ports (domain, granularity over the divisors "
         "of the width or array length, or None) x 0-3 read ports (comb or sync, transparency = random subset of the same-domain write "
-        "ports in random order) x initial rows (none/partial/full) x wrapper (none/DomainRenamer/ResetInserter/EnableInserter); "
+        "ports in random order) x initial rows (none/partial/full; for shape-castable rows 15 % of the entries are an explicit None; "
+        "the expected contents of rows that init leaves out are computed by the harness from the field defaults and offsets - "
+        "shape_default - and compared with every row and every read port before the first operation) x wrapper (none/DomainRenamer/ResetInserter/EnableInserter); "
         "operations = seeded inputs (addresses random / two hot addresses / one address; enables all-ones, zero or random bits) followed by "
         "a clock event (each domain's clock toggles with p=.75, resets pulse) or a testbench row / row-slice write (1.5 % of the "
         "operations name a row that does not exist - index = depth, beyond it, or negative - and must raise IndexError). distinct = distinct "
@@ -724,7 +848,9 @@ def run(chk):
     # -- 2. constructors (the malformed stream) -----------------------------------------------------
     shapes = [("u", 0), ("u", 1), ("u", 4), ("u", 6), ("u", 8), ("s", 1), ("s", 4), ("s", 8),
               ("struct", (("a", 2, False), ("b", 2, True))), ("array", 2, 4), ("array", 3, 6), ("array", 0, 3),
-              ("array", 2, 0), ("array", 1, 1)]
+              ("array", 2, 0), ("array", 1, 1),
+              ("dstruct", (("a", 2, False, 3), ("b", 2, True, -1))), ("dunion", (("a", 2, False, None), ("b", 3, True, -2))),
+              ("custom", 4, False, 9)]
     grans = [None, -1, 0, 1, 2, 3, 4, 5, 6, 8, 9, 12, "x", 1.5]
     jobs, reqs = [], []
     for sh in shapes:
@@ -882,6 +1008,20 @@ def run(chk):
         chk.hist("ports", f"r{len(cfg['rds'])}w{len(cfg['wrs'])}")
         chk.hist("domains", "+".join(sorted(d["edge"] + "/" + d["rst"] for d in cfg["doms"])))
         chk.hist("wrap", cfg.get("wrap"))
+        # how the initial contents were declared, and how many rows rely on the row shape's default constant
+        sh = cfg["shape"]
+        dcls = "plain" if not shape_castable(sh) else ("castable,default!=0" if shape_default(sh) else "castable,default=0")
+        n_exp_none = sum(1 for v in cfg["init"] if v is None)
+        n_missing = cfg["depth"] - len(cfg["init"])
+        chk.hist("init_rows", dcls + ":" + ("depth0" if cfg["depth"] == 0 else "empty" if not cfg["init"] else
+                                            "partial" if n_missing else "full") + (",explicit-None" if n_exp_none else ""))
+        if dcls == "castable,default!=0":
+            chk.hist("nonzero_default", "memories")
+            chk.hist("nonzero_default", "memories with rows missing from init", 1 if n_missing else 0)
+            chk.hist("nonzero_default", "rows missing from init (implicit default)", n_missing)
+            chk.hist("nonzero_default", "rows explicitly None", n_exp_none)
+            chk.hist("nonzero_default", "sync read ports (data starts at the default)", sum(1 for rr in cfg["rds"] if rr["dom"] is not None))
+            chk.hist("nonzero_default_kind", sh[0])
         for w in cfg["wrs"]:
             chk.hist("granularity", "None" if w["gran"] is None else ("full" if w["gran"] == shape_width(cfg["shape"]) else "partial"))
         for rr in cfg["rds"]:
@@ -1064,6 +1204,18 @@ def replay(chk, path):
     rep = json.load(open(path))["replay"]
     cfg = rep["cfg"]
     cfg["shape"] = _tuplify(cfg["shape"])
+    if "op" not in rep:
+        # a report about the initial contents: build the memory again and show its rows next to the declared ones
+        res = walk_worker((cfg, []))
+        declared = [full_init(cfg), [v if r["dom"] is not None else full_init(cfg)[0] if cfg["depth"] else 0
+                                     for v, r in zip(rd_init(cfg), cfg["rds"])]]
+        print("memory     :", describe(cfg))
+        print("init       :", cfg["init"], "(row default from the field defaults:", shape_default(cfg["shape"]), ")")
+        print("impl rows / read data :", res.get("obs", [res.get("error")])[0])
+        print("declared              :", declared)
+        same = "obs" in res and [list(res["obs"][0][0]), list(res["obs"][0][1])] == declared
+        print("verdict    :", "agrees" if same else "initial contents differ from the declared ones")
+        return common.EXIT_OK if same else common.EXIT_VIOLATION
     op = rep["op"]
     op["wr"] = [tuple(x) for x in op["wr"]]
     op["rd"] = [tuple(x) for x in op["rd"]]
